@@ -41,7 +41,22 @@ def special_subject(rng):
     u1 = ctx.unit([Desc("<", None, rng.choice([None, 0.0, 2.0])), Desc(">")], style="ends")
     u2 = ctx.unit([Desc("<", None, rng.choice([None, 0.0])), Desc(">")], style="ends")
     s1 = StochAst(Desc(">"), Desc("<"), [u1], [], gen.forced_dist(60))
-    mode = rng.choice(["two-live", "zero-units", "suffix-two"])
+    mode = rng.choice(["two-live", "zero-units", "suffix-two", "mixed-orders", "mixed-orders"])
+    if mode == "mixed-orders":
+        # descriptors of one symbol and id but different bond orders in one object (parse / graph only)
+        f = rng.choice(["und", "dir"])
+        a, b = ("$", "$") if f == "und" else ("<", ">")
+        w = lambda: rng.choice([None, 2.0, 3.0, 0.5])  # noqa: E731
+        t1 = gen.build_token(rng, rng.choice(["CC", "CCC"]), [Desc(a, None, w()), Desc(b, None, w())], "ends")
+        t2 = gen.build_token(rng, rng.choice(["CC", "CCC"]), [Desc(a, None, w()), Desc(b, None, w(), "=")], "ends")
+        t3 = gen.build_token(rng, rng.choice(["CC", "CCC"]), [Desc(a, None, w(), "="), Desc(b, None, w(), "=")], "ends")
+        e1 = gen.build_token(rng, "O", [Desc(a, None, w(), "=")], "ends")
+        e2 = gen.single_atom_token("[H]", Desc(a, None, w()))
+        e3 = gen.single_atom_token("F", Desc(b, None, w()))
+        units = [t1, t2, t3]
+        rng.shuffle(units)
+        s0 = StochAst(Desc(""), Desc(""), units, [e1, e2, e3], gen.forced_dist(60))
+        return MolAst([s0], arch="special")
     if mode == "two-live":
         conn = ctx.unit([Desc("<"), Desc("<", None, rng.choice([1.0, 3.0, 0.5])), Desc(">", None, 0.0)])
         s2 = StochAst(Desc(">"), Desc("<"), [u2], [], gen.forced_dist(60))
